@@ -9,3 +9,5 @@ require (
 )
 
 replace github.com/q191201771/lal => /repo
+
+replace github.com/q191201771/naza => ./third_party/naza
